@@ -12,7 +12,7 @@
    language.  Under either guard the texts can be decoded ([decode_pr]), which gives the renaming
    function of C17 ([rho]). *)
 From Coq Require Import List NArith String Ascii Bool Lia DecimalString DecimalN DecimalPos.
-From SCC Require Import Base.Sexp.
+From SCC Require Import Base.Sexp Sem.LabelGuard.
 Import ListNotations.
 Local Open Scope string_scope.
 
@@ -35,22 +35,14 @@ Proof.
 Qed.
 
 (* ---------- character classes ---------- *)
-Definition is_dig (c : ascii) : bool := Nat.leb 48 (nat_of_ascii c) && Nat.leb (nat_of_ascii c) 57.
-Definition is_us (c : ascii) : bool := Ascii.eqb c "_".
-Definition is_low (c : ascii) : bool := Nat.leb 97 (nat_of_ascii c) && Nat.leb (nat_of_ascii c) 122.
 Lemma dig_not_us c : is_dig c = true -> is_us c = false.
 Proof. destruct c as [[] [] [] [] [] [] [] []]; cbv; intros; try discriminate; reflexivity. Qed.
 Lemma is_us_eq c : is_us c = true -> c = "_"%char.
 Proof. apply Ascii.eqb_eq. Qed.
 
 Fixpoint all_dig (s : string) : bool := match s with "" => true | String c r => is_dig c && all_dig r end.
-Definition hd_dig (s : string) : bool := match s with String c _ => is_dig c | "" => false end.
 Definition hd_us (s : string) : bool := match s with String c _ => is_us c | "" => false end.
-Definition lower_first (s : string) : bool := match s with String c _ => is_low c | "" => false end.
 Fixpoint has_us (s : string) : bool := match s with "" => false | String c r => is_us c || has_us r end.
-(* an underscore immediately followed by a digit *)
-Fixpoint has_usd (s : string) : bool :=
-  match s with "" => false | String c r => (is_us c && hd_dig r) || has_usd r end.
 Fixpoint ends_us (s : string) : bool :=
   match s with "" => false | String c "" => is_us c | String _ r => ends_us r end.
 
@@ -256,8 +248,6 @@ Proof.
 Qed.
 
 (* ---------- the two guards ---------- *)
-Definition ty_ok (T : string) : bool := negb (has_usd T).
-Definition xtor_ok (X : string) : bool := negb (has_usd X) && negb (hd_dig X).
 
 Lemma usd_tail_gen D X : all_dig D = true -> has_usd X = false -> hd_dig X = false -> has_usd (D ++ String "_" X) = false.
 Proof.
